@@ -8,13 +8,14 @@ from approx import oracle_c05, oracle_c06
 THEOREMS = ["Parmcb.C03." + t for t in ["c03_join_assoc", "c03_join_ident", "c03_join_prefers_left", "c03_reduce_min", "c03_seq_min",
             "c03_reduce_none", "c03_reduce_sum", "c03_update_for", "c03_init_perm", "c03_update_no_conflict",
             "c03_parity_no_conflict", "c03_search_no_conflict"]] + \
-           ["Parmcb.runFrom_independent", "Parmcb.runFrom_spans", "Parmcb.runFrom_weight", "Parmcb.runFrom_circuits"]
+           ["Parmcb.runFrom_independent", "Parmcb.runFrom_spans", "Parmcb.runFrom_weight", "Parmcb.runFrom_circuits",
+            "Parmcb.C02.c03_signed_tbb_end_to_end", "Parmcb.C02.c03_fvs_trees_tbb_end_to_end", "Parmcb.C02.c03_iso_trees_tbb_end_to_end"]
 EXACT = ["signed_tbb", "fvs_tbb", "iso_tbb"]
 
 def run(tier, replay=None):
     res = Result("C03", tier, "proof")
     res.assumptions = ["oneTBB only produces executions of the shape modelled by Sched/ForSched (its documented contract) — trusted",
-                       "the per-index searches meet SearchContract (validated per run by the trace validation, not proved)",
+                       "the per-index searches meet SearchContract: PROVED for the literal models (c03_*_end_to_end: literal bidirectional search / candidate builder under every schedule) and additionally validated per run by the trace validation",
                        "footprints hand-extracted from the lambdas; the memory model itself is outside the model (TSan samples it in the thorough tier)"]
     lean_ok = lean_gate(res, "Parmcb", THEOREMS)
     shimdir = os.path.join(VERIF, "harness", "tbbshim")
